@@ -1,4 +1,5 @@
 mod eval;
+mod mir;
 mod model;
 mod quotex;
 mod report;
